@@ -238,6 +238,7 @@ func TestPropGc(t *testing.T) {
 				sort.Strings(p.Features)
 				ev.NontrivialSample(map[string]any{"program": p.Src, "gc_output": clip(ts[i].Out), "gc_panic": ts[i].Panic}, p.Src)
 			}
+			ev.Journal("gc", Case{Src: p.Src})
 			if msg := compare(p.Src, ts[i]); msg != "" {
 				if id := classify(p.Src, msg); id != "" && ev.Known(id) {
 					continue
